@@ -1,6 +1,964 @@
-//! C12 (stub)
+//! C12 — drawing is well-formed and independent of buffers, history and threads.
+//!
+//! Correspondence (real code vs Lean model through `drv_c12`):
+//!   tp          `outline::path::to_path` on random point/flag/contour arrays (hook `points_to_path`),
+//!               coordinate types F26Dot6 / Fixed / i32 (model `fixedCoord`) and f32 (model `exactCoord`)
+//!   carve.ft/hb `FreeTypeOutlineMemory::new` / `HarfBuzzOutlineMemory::new` on random metric records,
+//!               base address offsets 0..15 and buffer lengths around the advertised size
+//!   carve.size  `Outline::required_buffer_size` (random records; real glyphs: `draw_memory_size`)
+//!   eff         `LocationRef::effective_coords` (observed through `HintingInstance::location`)
+//! Model-independent oracles on the public API (corpus fonts + every glyph/size/location/hinting mix):
+//!   grammar, finiteness, draw twice, caller memory of the advertised size at misaligned bases,
+//!   None vs all-zero location, fresh vs reused HintingInstance, instance state untouched by draws,
+//!   draw order, concurrent draws through one shared instance.
 use fv_harness::common::*;
-fn run(_cfg: &Config, _s: &mut Session) {
-    let _ = skrifa::outline::verif_hooks::required_buffer_size(Default::default(), false);
+use read_fonts::{
+    tables::glyf::PointFlags,
+    types::{F26Dot6, F2Dot14, Fixed, GlyphId, Point},
+    FontRef, TableProvider,
+};
+use skrifa::{
+    instance::{Location, LocationRef, Size},
+    outline::{
+        verif_hooks::{self, OutlineCounts},
+        DrawError, DrawSettings, Engine, HintingInstance, HintingOptions, OutlineGlyph,
+        OutlineGlyphCollection, OutlinePen, SmoothMode, Target,
+    },
+    MetadataProvider,
+};
+use skrifa::outline::pen::PathStyle;
+
+// ---------------------------------------------------------------------------------------------
+// recording pen, grammar, canonical rendering
+
+#[derive(Clone, Copy, Debug)]
+enum Cmd {
+    M(f32, f32),
+    L(f32, f32),
+    Q(f32, f32, f32, f32),
+    C(f32, f32, f32, f32, f32, f32),
+    Z,
 }
-fn main() { fv_harness::main_with("C12", run) }
+
+impl Cmd {
+    fn coords(&self) -> Vec<f32> {
+        match *self {
+            Cmd::M(a, b) | Cmd::L(a, b) => vec![a, b],
+            Cmd::Q(a, b, c, d) => vec![a, b, c, d],
+            Cmd::C(a, b, c, d, e, f) => vec![a, b, c, d, e, f],
+            Cmd::Z => vec![],
+        }
+    }
+    fn letter(&self) -> char {
+        match self {
+            Cmd::M(..) => 'M',
+            Cmd::L(..) => 'L',
+            Cmd::Q(..) => 'Q',
+            Cmd::C(..) => 'C',
+            Cmd::Z => 'Z',
+        }
+    }
+    /// exact rendering: letter + bit patterns
+    fn bits(&self) -> String {
+        let mut s = String::new();
+        s.push(self.letter());
+        for v in self.coords() {
+            s.push_str(&format!(" {:08x}", v.to_bits()));
+        }
+        s
+    }
+}
+
+#[derive(Default)]
+struct RecPen(Vec<Cmd>);
+impl OutlinePen for RecPen {
+    fn move_to(&mut self, x: f32, y: f32) {
+        self.0.push(Cmd::M(x, y))
+    }
+    fn line_to(&mut self, x: f32, y: f32) {
+        self.0.push(Cmd::L(x, y))
+    }
+    fn quad_to(&mut self, a: f32, b: f32, x: f32, y: f32) {
+        self.0.push(Cmd::Q(a, b, x, y))
+    }
+    fn curve_to(&mut self, a: f32, b: f32, c: f32, d: f32, x: f32, y: f32) {
+        self.0.push(Cmd::C(a, b, c, d, x, y))
+    }
+    fn close(&mut self) {
+        self.0.push(Cmd::Z)
+    }
+}
+
+/// `(Move Seg* Close)*`, written independently of the Lean `wellFormed`
+fn well_formed(cmds: &[Cmd]) -> bool {
+    let mut open = false;
+    for c in cmds {
+        match (open, c) {
+            (false, Cmd::M(..)) => open = true,
+            (false, _) => return false,
+            (true, Cmd::Z) => open = false,
+            (true, Cmd::M(..)) => return false,
+            (true, _) => {}
+        }
+    }
+    !open
+}
+
+fn all_finite(cmds: &[Cmd]) -> bool {
+    cmds.iter().all(|c| c.coords().iter().all(|v| v.is_finite()))
+}
+
+fn render_bits(cmds: &[Cmd]) -> String {
+    cmds.iter().map(|c| c.bits()).collect::<Vec<_>>().join(" ")
+}
+
+// ---------------------------------------------------------------------------------------------
+// part A: to_path
+
+#[derive(Clone, Copy, PartialEq)]
+enum CoordKind {
+    F26,
+    Fx,
+    I32,
+    F32,
+}
+
+/// run the real `to_path`; canonical string in the model's vocabulary.
+/// fixed kinds: outputs are rescaled by the (power of two) unit, giving exact integers.
+fn run_to_path(kind: CoordKind, style: PathStyle, pts: &[(i32, i32)], flags: &[u8], contours: &[u16]) -> (String, Vec<Cmd>, bool) {
+    let fl: Vec<PointFlags> = flags.iter().map(|b| PointFlags::from_bits(*b)).collect();
+    let mut pen = RecPen::default();
+    let res = match kind {
+        CoordKind::F26 => {
+            let p: Vec<Point<F26Dot6>> = pts.iter().map(|(x, y)| Point::new(F26Dot6::from_bits(*x), F26Dot6::from_bits(*y))).collect();
+            verif_hooks::points_to_path(&p, &fl, contours, style, &mut pen)
+        }
+        CoordKind::Fx => {
+            let p: Vec<Point<Fixed>> = pts.iter().map(|(x, y)| Point::new(Fixed::from_bits(*x), Fixed::from_bits(*y))).collect();
+            verif_hooks::points_to_path(&p, &fl, contours, style, &mut pen)
+        }
+        CoordKind::I32 => {
+            let p: Vec<Point<i32>> = pts.iter().map(|(x, y)| Point::new(*x, *y)).collect();
+            verif_hooks::points_to_path(&p, &fl, contours, style, &mut pen)
+        }
+        CoordKind::F32 => {
+            let p: Vec<Point<f32>> = pts.iter().map(|(x, y)| Point::new(*x as f32, *y as f32)).collect();
+            verif_hooks::points_to_path(&p, &fl, contours, style, &mut pen)
+        }
+    };
+    let scale: f64 = match kind {
+        CoordKind::F26 => 64.0,
+        CoordKind::Fx => 65536.0,
+        CoordKind::I32 => 1.0,
+        CoordKind::F32 => 2.0,
+    };
+    let mut parts: Vec<String> = vec![];
+    for c in &pen.0 {
+        let mut s = String::new();
+        s.push(c.letter());
+        for v in c.coords() {
+            let w = v as f64 * scale;
+            if w.fract() != 0.0 || !w.is_finite() {
+                s.push_str(&format!(" inexact({v})"));
+            } else {
+                s.push_str(&format!(" {}", w as i64));
+            }
+        }
+        parts.push(s);
+    }
+    let ok = res.is_ok();
+    let tail = match res {
+        Ok(()) => "ok".to_string(),
+        Err(e) => {
+            use skrifa::outline::error::ToPathError as E;
+            match e {
+                E::ContourOrder(i) => format!("err:ContourOrder:{i}"),
+                E::ExpectedQuad(i) => format!("err:ExpectedQuad:{i}"),
+                E::ExpectedQuadOrOnCurve(i) => format!("err:ExpectedQuadOrOnCurve:{i}"),
+                E::ExpectedCubic(i) => format!("err:ExpectedCubic:{i}"),
+                E::PointFlagMismatch { num_points, num_flags } => format!("err:PointFlagMismatch:{num_points}:{num_flags}"),
+            }
+        }
+    };
+    parts.push(tail);
+    (parts.join(" "), pen.0, ok)
+}
+
+fn part_to_path(cfg: &Config, s: &mut Session, rng: &mut Rng) {
+    let n = if cfg.thorough() { 400_000 } else { 40_000 };
+    let bvals = boundary_i32();
+    for it in 0..n {
+        let kind = *rng.pick(&[CoordKind::F26, CoordKind::Fx, CoordKind::I32, CoordKind::F32]);
+        let style = if rng.chance(1, 2) { PathStyle::FreeType } else { PathStyle::HarfBuzz };
+        // contour structure
+        let nc = rng.below(4) as usize;
+        let mut contours: Vec<u16> = vec![];
+        let mut np = 0usize;
+        for _ in 0..nc {
+            let len = match rng.below(10) {
+                0 => 1,
+                1 => 2,
+                2 => 3,
+                _ => 1 + rng.below(7) as usize,
+            };
+            np += len;
+            contours.push((np - 1) as u16);
+        }
+        // flag profile
+        let profile = rng.below(6);
+        let mut flags: Vec<u8> = (0..np)
+            .map(|_| match profile {
+                0 => 0,                                             // all off-curve quads
+                1 => *rng.pick(&[0u8, 1]),                          // quadratic outline
+                2 => *rng.pick(&[1u8, 1, 0x80, 0x80, 0]),           // cubic-ish
+                3 => 1,                                             // polygon
+                4 => *rng.pick(&[0u8, 1, 0x80, 0x81]),              // anything
+                _ => *rng.pick(&[0u8, 0, 0, 1]),                    // mostly off
+            })
+            .collect();
+        // well-formed cubic runs sometimes
+        if profile == 2 && rng.chance(1, 2) {
+            let mut i = 0;
+            while i < flags.len() {
+                if rng.chance(1, 2) && i + 2 < flags.len() {
+                    flags[i] = 0x80;
+                    flags[i + 1] = 0x80;
+                    flags[i + 2] = 1;
+                    i += 3;
+                } else {
+                    flags[i] = 1;
+                    i += 1;
+                }
+            }
+        }
+        // coordinates
+        let big = kind != CoordKind::F32 && rng.chance(1, 4);
+        let mut pts: Vec<(i32, i32)> = (0..np)
+            .map(|_| {
+                if big {
+                    (*rng.pick(&bvals), *rng.pick(&bvals))
+                } else if kind == CoordKind::F32 {
+                    (rng.range(-100_000, 100_000) as i32, rng.range(-100_000, 100_000) as i32)
+                } else {
+                    (rng.range(-70_000, 70_000) as i32, rng.range(-70_000, 70_000) as i32)
+                }
+            })
+            .collect();
+        // malformations
+        match rng.below(12) {
+            0 if !contours.is_empty() => {
+                // end point out of order / out of range
+                let i = rng.below(contours.len() as u64) as usize;
+                contours[i] = *rng.pick(&[0u16, 1, (np as u16).wrapping_sub(0), np as u16 + 1, 65535]);
+                s.count("tp:contour-mutated");
+            }
+            1 if !flags.is_empty() => {
+                let k = rng.below(flags.len() as u64) as usize;
+                flags.truncate(k);
+                s.count("tp:flags-short");
+            }
+            2 => {
+                flags.push(1);
+                s.count("tp:flags-long");
+            }
+            3 if !pts.is_empty() => {
+                let k = rng.below(pts.len() as u64) as usize;
+                pts.truncate(k);
+                s.count("tp:points-short");
+            }
+            4 if !contours.is_empty() => {
+                // duplicate an end point (empty / reversed range)
+                let i = rng.below(contours.len() as u64) as usize;
+                let v = contours[i];
+                contours.insert(i, v);
+                s.count("tp:contour-dup");
+            }
+            _ => {}
+        }
+        let (resp, cmds, ok) = match catch(|| run_to_path(kind, style, &pts, &flags, &contours)) {
+            Ok(r) => r,
+            Err(_) => ("trap".to_string(), vec![], false),
+        };
+        let kind_n = if kind == CoordKind::F32 { 1 } else { 0 };
+        let style_n = if matches!(style, PathStyle::FreeType) { 0 } else { 1 };
+        let mult = if kind == CoordKind::F32 { 2i64 } else { 1 };
+        let mut req = format!("tp {kind_n} {style_n} {} {} {}", pts.len(), flags.len(), contours.len());
+        for (x, y) in &pts {
+            req.push_str(&format!(" {} {}", *x as i64 * mult, *y as i64 * mult));
+        }
+        for f in &flags {
+            // PointFlags::from_bits masks to the curve bits
+            req.push_str(&format!(" {}", f & 0x81));
+        }
+        for c in &contours {
+            req.push_str(&format!(" {c}"));
+        }
+        let input = req.clone();
+        s.case("to_path", req, resp.clone());
+        s.count(if ok { "tp:ok" } else { "tp:err" });
+        if let Some(e) = resp.rsplit(' ').next() {
+            if e.starts_with("err:") {
+                let k: Vec<&str> = e.split(':').collect();
+                s.count(&format!("tp:{}", k[1]));
+            }
+        }
+        if it < 4 {
+            s.count("tp:first");
+        }
+        if ok {
+            s.oracle("to_path.grammar", well_formed(&cmds), || input.clone(), || render_bits(&cmds));
+            s.oracle("to_path.finite", all_finite(&cmds), || input.clone(), || render_bits(&cmds));
+            for c in &cmds {
+                s.count(&format!("tp:cmd:{}", c.letter()));
+            }
+        } else {
+            // the partial stream is still finite
+            s.oracle("to_path.finite", all_finite(&cmds), || input.clone(), || render_bits(&cmds));
+        }
+    }
+}
+
+// ---------------------------------------------------------------------------------------------
+// part B: carving
+
+fn counts_args(c: &OutlineCounts) -> String {
+    format!(
+        "{} {} {} {} {} {} {} {} {} {} {}",
+        c.points,
+        c.contours,
+        c.max_simple_points,
+        c.max_other_points,
+        c.max_component_delta_stack,
+        c.max_stack,
+        c.cvt_count,
+        c.storage_count,
+        c.max_twilight_points,
+        c.has_hinting as u8,
+        c.has_variations as u8
+    )
+}
+
+fn render_layout(l: &Option<Vec<verif_hooks::SliceLayout>>) -> String {
+    match l {
+        None => "none".into(),
+        Some(v) => v.iter().map(|(n, off, len, sz)| format!("{n}:{off}:{len}:{sz}")).collect::<Vec<_>>().join(" "),
+    }
+}
+
+/// property oracle on a carved layout: right lengths are checked by correspondence; here: inside the
+/// buffer, aligned to the element type, pairwise disjoint
+fn layout_good(l: &[verif_hooks::SliceLayout], base_off: usize, len: usize) -> Result<(), String> {
+    let mut spans: Vec<(usize, usize, &str)> = vec![];
+    for (n, off, cnt, sz) in l {
+        if *cnt == 0 {
+            continue;
+        }
+        let align = match *sz {
+            8 | 4 => 4,
+            2 => 2,
+            _ => 1,
+        };
+        if off + cnt * sz > len {
+            return Err(format!("{n} ends at {} > len {len}", off + cnt * sz));
+        }
+        if (base_off + off) % align != 0 {
+            return Err(format!("{n} misaligned: base%16={base_off} off={off} align={align}"));
+        }
+        spans.push((*off, off + cnt * sz, n));
+    }
+    spans.sort();
+    for w in spans.windows(2) {
+        if w[0].1 > w[1].0 {
+            return Err(format!("{} [{}..{}) overlaps {} [{}..{})", w[0].2, w[0].0, w[0].1, w[1].2, w[1].0, w[1].1));
+        }
+    }
+    Ok(())
+}
+
+/// a byte buffer whose first byte sits at an address ≡ `off` (mod 16)
+struct OffsetBuf {
+    store: Vec<u8>,
+    start: usize,
+    len: usize,
+}
+impl OffsetBuf {
+    fn new(off: usize, len: usize) -> Self {
+        let store = vec![0xA5u8; len + 48];
+        let addr = store.as_ptr() as usize;
+        let start = ((16 - addr % 16) % 16) + off;
+        OffsetBuf { store, start, len }
+    }
+    fn slice(&mut self) -> &mut [u8] {
+        &mut self.store[self.start..self.start + self.len]
+    }
+}
+
+fn expected_size(c: &OutlineCounts, emb: bool) -> usize {
+    // independent restatement of the payload (not the code's formula): sum over the carved slices
+    let hinted = c.has_hinting && emb;
+    let mut t = c.points * 8 + c.max_other_points * 8 + c.contours * 2 + c.points;
+    if hinted {
+        t += c.max_other_points * 8 + c.max_stack * 4 + c.cvt_count * 4 + c.storage_count * 4 + c.max_twilight_points * 17;
+    }
+    if c.has_variations {
+        t += c.max_simple_points * 16 + c.max_component_delta_stack * 8;
+    }
+    t
+}
+
+fn part_carve(cfg: &Config, s: &mut Session, rng: &mut Rng) {
+    let n = if cfg.thorough() { 300_000 } else { 30_000 };
+    for _ in 0..n {
+        let small = |rng: &mut Rng| -> usize {
+            match rng.below(8) {
+                0 | 1 => 0,
+                2 => 1,
+                3 => 4,
+                _ => rng.below(40) as usize,
+            }
+        };
+        let plausible = rng.chance(2, 3);
+        let mut c = OutlineCounts {
+            points: small(rng),
+            contours: small(rng),
+            max_simple_points: small(rng),
+            max_other_points: small(rng),
+            max_component_delta_stack: small(rng),
+            max_stack: small(rng),
+            cvt_count: small(rng),
+            storage_count: small(rng),
+            max_twilight_points: small(rng),
+            has_hinting: rng.chance(1, 2),
+            has_variations: rng.chance(1, 2),
+        };
+        if plausible {
+            // what Outlines::outline can produce: 4 phantom points always; simple glyph reached ⇒ other ≥ 4
+            c.points += 4;
+            if c.points > 4 && c.max_other_points == 0 {
+                c.max_other_points = 4 + rng.below(10) as usize;
+            }
+            if c.points == 4 {
+                c.contours = 0;
+                c.max_simple_points = 0;
+            }
+        }
+        let emb = rng.chance(1, 2);
+        let adv = verif_hooks::required_buffer_size(c, emb);
+        s.case("carve.size", format!("carve.size {} {}", emb as u8, counts_args(&c)), adv.to_string());
+        let payload = expected_size(&c, emb);
+        s.oracle(
+            "carve.size.covers_payload",
+            adv >= payload && (payload == 0 || adv >= payload + 3),
+            || format!("emb={emb} {}", counts_args(&c)),
+            || format!("advertised {adv} payload {payload}"),
+        );
+        let off = rng.below(16) as usize;
+        let len = match rng.below(10) {
+            0 => adv.saturating_sub(1 + rng.below(8) as usize),
+            1 => adv + rng.below(9) as usize,
+            2 => rng.below(adv as u64 + 1) as usize,
+            3 => payload,
+            _ => adv,
+        };
+        let hb = rng.chance(1, 3);
+        let mut buf = OffsetBuf::new(off, len);
+        if hb {
+            let l = catch(|| verif_hooks::harfbuzz_memory_layout(c, buf.slice()));
+            let resp = match &l {
+                Ok(l) => render_layout(l),
+                Err(_) => "trap".into(),
+            };
+            s.case("carve.hb", format!("carve.hb {off} {len} {}", counts_args(&c)), resp.clone());
+            s.count(if resp == "none" { "carve.hb:none" } else { "carve.hb:some" });
+            let adv_hb = verif_hooks::required_buffer_size(c, false);
+            let input = || format!("hb off={off} len={len} {}", counts_args(&c));
+            if let Ok(Some(l)) = &l {
+                let g = layout_good(l, off, len);
+                s.oracle("carve.hb.layout", g.is_ok(), input, || g.clone().unwrap_err());
+            }
+            if len >= adv_hb && (plausible || c.max_other_points >= 1 || !c.has_variations) {
+                s.oracle("carve.hb.sufficient", matches!(l, Ok(Some(_))), input, || resp.clone());
+            } else if len >= adv_hb {
+                s.count(if matches!(l, Ok(Some(_))) { "carve.hb:implausible-ok" } else { "carve.hb:implausible-none" });
+            }
+        } else {
+            let l = catch(|| verif_hooks::freetype_memory_layout(c, buf.slice(), emb));
+            let resp = match &l {
+                Ok(l) => render_layout(l),
+                Err(_) => "trap".into(),
+            };
+            s.case("carve.ft", format!("carve.ft {} {off} {len} {}", emb as u8, counts_args(&c)), resp.clone());
+            s.count(if resp == "none" { "carve.ft:none" } else { "carve.ft:some" });
+            let input = || format!("ft emb={emb} off={off} len={len} {}", counts_args(&c));
+            if let Ok(Some(l)) = &l {
+                let g = layout_good(l, off, len);
+                s.oracle("carve.ft.layout", g.is_ok(), input, || g.clone().unwrap_err());
+            }
+            if len >= adv {
+                s.oracle("carve.ft.sufficient", matches!(l, Ok(Some(_))), input, || resp.clone());
+            }
+            if len < payload {
+                s.oracle("carve.ft.small_is_none", matches!(l, Ok(None)), input, || resp.clone());
+            }
+        }
+    }
+}
+
+// ---------------------------------------------------------------------------------------------
+// part C: whole draws on fonts
+
+#[derive(Clone, PartialEq)]
+struct DrawOut {
+    result: String,
+    cmds: String,
+    ok: bool,
+    wf: bool,
+    finite: bool,
+    n_cmds: usize,
+}
+
+fn render_result(r: &Result<skrifa::outline::AdjustedMetrics, DrawError>) -> String {
+    match r {
+        Ok(m) => format!(
+            "ok overlaps={} lsb={:?} adv={:?}",
+            m.has_overlaps,
+            m.lsb.map(|v| v.to_bits()),
+            m.advance_width.map(|v| v.to_bits())
+        ),
+        Err(e) => format!("err {e:?}"),
+    }
+}
+
+fn finish_draw(r: Result<Result<skrifa::outline::AdjustedMetrics, DrawError>, String>, pen: RecPen) -> DrawOut {
+    match r {
+        Ok(r) => DrawOut {
+            result: render_result(&r),
+            cmds: render_bits(&pen.0),
+            ok: r.is_ok(),
+            wf: well_formed(&pen.0),
+            finite: all_finite(&pen.0)
+                && r.as_ref().map(|m| m.lsb.map_or(true, |v| v.is_finite()) && m.advance_width.map_or(true, |v| v.is_finite())).unwrap_or(true),
+            n_cmds: pen.0.len(),
+        },
+        Err(p) => DrawOut { result: format!("panic {p}"), cmds: render_bits(&pen.0), ok: false, wf: false, finite: false, n_cmds: 0 },
+    }
+}
+
+#[derive(Clone, Copy)]
+enum Mem {
+    Library,
+    /// caller buffer: address offset (mod 16), length
+    Caller(usize, usize),
+}
+
+fn draw_unhinted(g: &OutlineGlyph, size: Size, loc: LocationRef, style: PathStyle, mem: Mem) -> DrawOut {
+    let mut pen = RecPen::default();
+    let r = catch(|| match mem {
+        Mem::Library => g.draw(DrawSettings::unhinted(size, loc).with_path_style(style), &mut pen),
+        Mem::Caller(off, len) => {
+            let mut b = OffsetBuf::new(off, len);
+            g.draw(DrawSettings::unhinted(size, loc).with_path_style(style).with_memory(Some(b.slice())), &mut pen)
+        }
+    });
+    finish_draw(r, pen)
+}
+
+fn draw_hinted(g: &OutlineGlyph, inst: &HintingInstance, pedantic: bool, mem: Mem) -> DrawOut {
+    let mut pen = RecPen::default();
+    let r = catch(|| match mem {
+        Mem::Library => g.draw(DrawSettings::hinted(inst, pedantic), &mut pen),
+        Mem::Caller(off, len) => {
+            let mut b = OffsetBuf::new(off, len);
+            g.draw(DrawSettings::hinted(inst, pedantic).with_memory(Some(b.slice())), &mut pen)
+        }
+    });
+    finish_draw(r, pen)
+}
+
+fn size_name(s: Size) -> String {
+    match s.ppem() {
+        None => "unscaled".into(),
+        Some(p) => format!("{p}"),
+    }
+}
+
+fn coords_name(c: &[F2Dot14]) -> String {
+    if c.is_empty() {
+        "-".into()
+    } else {
+        c.iter().map(|v| v.to_bits().to_string()).collect::<Vec<_>>().join(",")
+    }
+}
+
+struct FontCase {
+    name: String,
+    data: Vec<u8>,
+}
+
+fn load_fonts() -> Vec<FontCase> {
+    let dir = "/repo/font-test-data/test_data/ttf";
+    let mut names: Vec<String> = std::fs::read_dir(dir)
+        .map(|d| d.filter_map(|e| e.ok()).map(|e| e.file_name().to_string_lossy().to_string()).collect())
+        .unwrap_or_default();
+    names.sort();
+    let mut out = vec![];
+    for n in names {
+        if !(n.ends_with(".ttf") || n.ends_with(".otf")) {
+            continue;
+        }
+        if let Ok(data) = std::fs::read(format!("{dir}/{n}")) {
+            if FontRef::new(&data).is_ok() {
+                out.push(FontCase { name: n, data });
+            }
+        }
+    }
+    out
+}
+
+fn random_coords(rng: &mut Rng, n: usize) -> Vec<F2Dot14> {
+    (0..n)
+        .map(|_| {
+            F2Dot14::from_bits(match rng.below(6) {
+                0 => 16384,
+                1 => -16384,
+                2 => 0,
+                3 => 8192,
+                _ => rng.range(-16384, 16384) as i16,
+            })
+        })
+        .collect()
+}
+
+fn hint_options(rng: &mut Rng) -> (HintingOptions, String) {
+    let engine_n = rng.below(3);
+    let target_n = rng.below(6);
+    (options_from(engine_n, target_n), format!("e{engine_n}t{target_n}"))
+}
+
+fn options_from(engine_n: u64, target_n: u64) -> HintingOptions {
+    let engine = match engine_n {
+        0 => Engine::Interpreter,
+        1 => Engine::Auto(None),
+        _ => Engine::AutoFallback,
+    };
+    let target = match target_n {
+        0 => Target::Mono,
+        1 => Target::Smooth { mode: SmoothMode::Normal, symmetric_rendering: true, preserve_linear_metrics: false },
+        2 => Target::Smooth { mode: SmoothMode::Light, symmetric_rendering: true, preserve_linear_metrics: false },
+        3 => Target::Smooth { mode: SmoothMode::Lcd, symmetric_rendering: false, preserve_linear_metrics: false },
+        4 => Target::Smooth { mode: SmoothMode::VerticalLcd, symmetric_rendering: true, preserve_linear_metrics: true },
+        _ => Target::Smooth { mode: SmoothMode::Normal, symmetric_rendering: false, preserve_linear_metrics: true },
+    };
+    HintingOptions { engine, target }
+}
+
+fn pick_size(rng: &mut Rng) -> Size {
+    match rng.below(8) {
+        0 => Size::unscaled(),
+        1 => Size::new(8.0),
+        2 => Size::new(12.0),
+        3 => Size::new(16.0),
+        4 => Size::new(37.5),
+        5 => Size::new(100.0),
+        6 => Size::new(1.0),
+        _ => Size::new((rng.below(6000) as f32) / 64.0 + 4.0),
+    }
+}
+
+fn glyph_sample(rng: &mut Rng, n_glyphs: u32, cap: usize) -> Vec<u32> {
+    if n_glyphs as usize <= cap {
+        return (0..n_glyphs).collect();
+    }
+    let mut v: Vec<u32> = (0..(cap as u32 / 2)).collect();
+    while v.len() < cap {
+        let g = rng.below(n_glyphs as u64) as u32;
+        if !v.contains(&g) {
+            v.push(g);
+        }
+    }
+    v
+}
+
+fn part_fonts(cfg: &Config, s: &mut Session, rng: &mut Rng) {
+    let fonts = load_fonts();
+    let refs: Vec<FontRef> = fonts.iter().map(|f| FontRef::new(&f.data).unwrap()).collect();
+    let collections: Vec<OutlineGlyphCollection> = refs.iter().map(|f| f.outline_glyphs()).collect();
+    let cap = if cfg.thorough() { 400 } else { 40 };
+    let configs_per_font = if cfg.thorough() { 10 } else { 3 };
+    for (fi, font) in refs.iter().enumerate() {
+        let name = &fonts[fi].name;
+        let outlines = &collections[fi];
+        let n_glyphs = font.maxp().map(|m| m.num_glyphs() as u32).unwrap_or(0);
+        let axis_count = font.axes().len();
+        let is_glyf = font.glyf().is_ok() && font.loca(None).is_ok();
+        if outlines.get(GlyphId::new(0)).is_none() && n_glyphs > 0 && outlines.iter().next().is_none() {
+            s.count("fonts:no-outlines");
+            continue;
+        }
+        s.count(if is_glyf { "fonts:glyf" } else { "fonts:cff" });
+        if axis_count > 0 {
+            s.count("fonts:variable");
+        }
+        for ci in 0..configs_per_font {
+            let gids = glyph_sample(rng, n_glyphs, cap);
+            let size = if ci == 0 { Size::new(16.0) } else { pick_size(rng) };
+            let coords: Vec<F2Dot14> = if axis_count > 0 && ci > 0 { random_coords(rng, axis_count) } else { vec![] };
+            let zero_coords: Vec<F2Dot14> = vec![F2Dot14::ZERO; if axis_count > 0 { axis_count } else { 1 + rng.below(3) as usize }];
+            let loc = LocationRef::new(&coords);
+            let ctx = |gid: u32, what: &str| format!("font={name} gid={gid} size={} coords={} {what}", size_name(size), coords_name(&coords));
+
+            // ---------------- unhinted -----------------
+            for &gid in &gids {
+                let Some(g) = outlines.get(GlyphId::new(gid)) else {
+                    s.count("draw:no-glyph");
+                    continue;
+                };
+                for style in [PathStyle::FreeType, PathStyle::HarfBuzz] {
+                    let sn = if matches!(style, PathStyle::FreeType) { "ft" } else { "hb" };
+                    let base = draw_unhinted(&g, size, loc, style, Mem::Library);
+                    s.count(if base.ok { "draw:unhinted-ok" } else { "draw:unhinted-err" });
+                    if base.ok && is_glyf {
+                        s.oracle("draw.grammar", base.wf, || ctx(gid, sn), || base.cmds.clone());
+                    }
+                    if base.ok {
+                        s.oracle("draw.finite", base.finite, || ctx(gid, sn), || format!("{} {}", base.result, base.cmds));
+                    }
+                    s.oracle("draw.no_panic", !base.result.starts_with("panic"), || ctx(gid, sn), || base.result.clone());
+                    let again = draw_unhinted(&g, size, loc, style, Mem::Library);
+                    s.oracle("draw.twice", again == base, || ctx(gid, sn), || format!("{} | {}", base.result, again.result));
+                    // caller memory of exactly the advertised size at misaligned bases
+                    let adv = g.draw_memory_size(skrifa::outline::Hinting::None);
+                    let offs: Vec<usize> = if cfg.thorough() { (0..9).collect() } else { vec![0, 1 + rng.below(3) as usize, 4 + rng.below(5) as usize] };
+                    for off in offs {
+                        let m = draw_unhinted(&g, size, loc, style, Mem::Caller(off, adv));
+                        s.oracle("draw.caller_memory", m == base, || ctx(gid, &format!("{sn} off={off} len={adv}")), || format!("{} | {}", base.result, m.result));
+                    }
+                    let m = draw_unhinted(&g, size, loc, style, Mem::Caller(rng.below(9) as usize, adv + 1 + rng.below(64) as usize));
+                    s.oracle("draw.caller_memory", m == base, || ctx(gid, &format!("{sn} larger")), || format!("{} | {}", base.result, m.result));
+                    if adv > 0 {
+                        // too small: may fail, must not panic, and if it succeeds it must agree
+                        let m = draw_unhinted(&g, size, loc, style, Mem::Caller(rng.below(9) as usize, adv - 1 - rng.below(adv.min(8) as u64) as usize));
+                        s.oracle(
+                            "draw.small_memory",
+                            m == base || m.result.contains("InsufficientMemory"),
+                            || ctx(gid, &format!("{sn} smaller")),
+                            || format!("{} | {}", base.result, m.result),
+                        );
+                        s.count(if m == base { "draw:small-ok" } else { "draw:small-insufficient" });
+                    }
+                    // None vs all-zero location
+                    if coords.is_empty() {
+                        let z = draw_unhinted(&g, size, LocationRef::new(&zero_coords), style, Mem::Library);
+                        s.oracle("draw.zero_location", z == base, || ctx(gid, &format!("{sn} zeros={}", zero_coords.len())), || format!("{} | {}", base.result, z.result));
+                    }
+                    // model tie for the advertised size on real glyph metrics
+                    if let Some(c) = verif_hooks::outline_counts(&g) {
+                        if matches!(style, PathStyle::FreeType) {
+                            s.case("glyph.size", format!("carve.size 0 {}", counts_args(&c)), adv.to_string());
+                            let adv_h = g.draw_memory_size(skrifa::outline::Hinting::Embedded);
+                            s.case("glyph.size", format!("carve.size 1 {}", counts_args(&c)), adv_h.to_string());
+                            // the invariant the HarfBuzz carve relies on
+                            s.oracle(
+                                "counts.other_points_invariant",
+                                c.max_other_points >= 1 || (c.points == 4 && c.contours == 0 && c.max_simple_points == 0),
+                                || ctx(gid, "counts"),
+                                || counts_args(&c),
+                            );
+                        }
+                    }
+                }
+            }
+
+            // ---------------- hinted -----------------
+            let (opts, on) = if ci == 0 { (options_from(0, 1), "e0t1".to_string()) } else { hint_options(rng) };
+            let fresh = catch(|| HintingInstance::new(outlines, size, loc, opts.clone()));
+            let fresh = match fresh {
+                Ok(Ok(i)) => i,
+                Ok(Err(e)) => {
+                    s.count("hint:new-err");
+                    // a reused instance must fail the same way
+                    let mut dirty = dirty_instance(rng, &collections);
+                    if let Some(d) = dirty.as_mut() {
+                        let r = catch(|| d.reconfigure(outlines, size, loc, opts.clone()));
+                        let same = matches!(&r, Ok(Err(e2)) if format!("{e2:?}") == format!("{e:?}"));
+                        s.oracle("hint.reconfigure_error_same", same, || ctx(0, &on), || format!("{e:?} vs {:?}", r.map(|x| x.map_err(|e| format!("{e:?}")))));
+                    }
+                    continue;
+                }
+                Err(p) => {
+                    s.oracle("draw.no_panic", false, || ctx(0, &format!("HintingInstance::new {on}")), || p.clone());
+                    continue;
+                }
+            };
+            s.count(if fresh.is_enabled() { "hint:enabled" } else { "hint:disabled" });
+            let fresh_state = fresh.verif_state();
+            // effective coords observed through the instance
+            {
+                let got: Vec<i64> = fresh.location().coords().iter().map(|c| c.to_bits() as i64).collect();
+                let req = format!("eff {}", if coords.is_empty() { "".to_string() } else { coords.iter().map(|c| c.to_bits().to_string()).collect::<Vec<_>>().join(" ") });
+                s.case("eff", req.trim_end().to_string(), join(&got));
+            }
+            // reused instance: configured for other fonts / sizes / locations / modes before
+            let mut reused_ok = None;
+            for _ in 0..(if cfg.thorough() { 3 } else { 1 }) {
+                if let Some(mut d) = dirty_instance(rng, &collections) {
+                    let r = catch(|| d.reconfigure(outlines, size, loc, opts.clone()));
+                    match r {
+                        Ok(Ok(())) => {
+                            let st = d.verif_state();
+                            s.oracle("hint.reconfigure_state", st == fresh_state, || ctx(0, &on), || diff_hint(&fresh_state, &st));
+                            reused_ok = Some(d);
+                        }
+                        other => {
+                            s.oracle("hint.reconfigure_state", false, || ctx(0, &on), || format!("fresh ok, reused {:?}", other.map(|x| x.map_err(|e| format!("{e:?}")))));
+                        }
+                    }
+                }
+            }
+            // all-zero location instance
+            let zero_inst = if coords.is_empty() {
+                match catch(|| HintingInstance::new(outlines, size, LocationRef::new(&zero_coords), opts.clone())) {
+                    Ok(Ok(z)) => {
+                        s.oracle("hint.zero_location_state", z.verif_state() == fresh_state, || ctx(0, &on), || diff_hint(&fresh_state, &z.verif_state()));
+                        Some(z)
+                    }
+                    other => {
+                        s.oracle("hint.zero_location_state", false, || ctx(0, &on), || format!("{:?}", other.map(|x| x.map(|_| ()).map_err(|e| format!("{e:?}")))));
+                        None
+                    }
+                }
+            } else {
+                None
+            };
+            let pedantic = rng.chance(1, 4);
+            let mut base_outs: Vec<(u32, DrawOut)> = vec![];
+            for &gid in &gids {
+                let Some(g) = outlines.get(GlyphId::new(gid)) else { continue };
+                let base = draw_hinted(&g, &fresh, pedantic, Mem::Library);
+                s.count(if base.ok { "draw:hinted-ok" } else { "draw:hinted-err" });
+                let hctx = |what: &str| ctx(gid, &format!("hinted {on} pedantic={pedantic} {what}"));
+                if base.ok && is_glyf {
+                    s.oracle("draw.grammar", base.wf, || hctx(""), || base.cmds.clone());
+                }
+                if base.ok {
+                    s.oracle("draw.finite", base.finite, || hctx(""), || format!("{} {}", base.result, base.cmds));
+                }
+                s.oracle("draw.no_panic", !base.result.starts_with("panic"), || hctx(""), || base.result.clone());
+                let again = draw_hinted(&g, &fresh, pedantic, Mem::Library);
+                s.oracle("draw.twice", again == base, || hctx(""), || format!("{} | {}", base.result, again.result));
+                let adv = g.draw_memory_size(skrifa::outline::Hinting::Embedded);
+                let offs: Vec<usize> = if cfg.thorough() { (0..9).collect() } else { vec![0, 1 + rng.below(3) as usize, 4 + rng.below(5) as usize] };
+                for off in offs {
+                    let m = draw_hinted(&g, &fresh, pedantic, Mem::Caller(off, adv));
+                    s.oracle("draw.caller_memory", m == base, || hctx(&format!("off={off} len={adv}")), || format!("{} | {}", base.result, m.result));
+                }
+                if let Some(d) = &reused_ok {
+                    let m = draw_hinted(&g, d, pedantic, Mem::Library);
+                    s.oracle("draw.reused_instance", m == base, || hctx("reused"), || format!("{} | {}", base.result, m.result));
+                }
+                if let Some(z) = &zero_inst {
+                    let m = draw_hinted(&g, z, pedantic, Mem::Library);
+                    s.oracle("draw.zero_location", m == base, || hctx("zeros"), || format!("{} | {}", base.result, m.result));
+                }
+                base_outs.push((gid, base));
+            }
+            // drawing does not write to the instance
+            s.oracle("hint.draw_leaves_state", fresh.verif_state() == fresh_state, || ctx(0, &on), || diff_hint(&fresh_state, &fresh.verif_state()));
+            // a second fresh instance, used in reverse glyph order (lazily computed state must not
+            // depend on what was drawn first)
+            if let Ok(Ok(second)) = catch(|| HintingInstance::new(outlines, size, loc, opts.clone())) {
+                for (gid, base) in base_outs.iter().rev() {
+                    let Some(g) = outlines.get(GlyphId::new(*gid)) else { continue };
+                    let m = draw_hinted(&g, &second, pedantic, Mem::Library);
+                    s.oracle("draw.order", &m == base, || ctx(*gid, &format!("hinted {on} reverse-order")), || format!("{} | {}", base.result, m.result));
+                }
+            }
+            // concurrent draws through the shared instance
+            let n_threads = if cfg.thorough() { 16 } else { 6 };
+            let mut third = match catch(|| HintingInstance::new(outlines, size, loc, opts.clone())) {
+                Ok(Ok(t)) => t,
+                _ => continue,
+            };
+            let _ = &mut third;
+            let shared = &third;
+            let results: Vec<Vec<(u32, DrawOut)>> = std::thread::scope(|sc| {
+                let handles: Vec<_> = (0..n_threads)
+                    .map(|t| {
+                        let base_outs = &base_outs;
+                        sc.spawn(move || {
+                            let mut out = vec![];
+                            let n = base_outs.len();
+                            for k in 0..n {
+                                // each thread walks the glyphs in a different rotation / direction
+                                let idx = if t % 2 == 0 { (k + t * 7) % n } else { (n - 1 - k + t * 5) % n };
+                                let gid = base_outs[idx].0;
+                                if let Some(g) = outlines.get(GlyphId::new(gid)) {
+                                    out.push((idx as u32, draw_hinted(&g, shared, pedantic, Mem::Library)));
+                                }
+                            }
+                            out
+                        })
+                    })
+                    .collect();
+                handles.into_iter().map(|h| h.join().unwrap_or_default()).collect()
+            });
+            for (t, r) in results.iter().enumerate() {
+                for (idx, m) in r {
+                    let (gid, base) = &base_outs[*idx as usize];
+                    s.oracle("draw.threads", m == base, || ctx(*gid, &format!("hinted {on} thread={t}")), || format!("{} | {}", base.result, m.result));
+                }
+            }
+        }
+    }
+}
+
+/// an instance that has been through 1–3 other configurations (other fonts, sizes, locations, modes)
+fn dirty_instance(rng: &mut Rng, collections: &[OutlineGlyphCollection]) -> Option<HintingInstance> {
+    let mut inst: Option<HintingInstance> = None;
+    let steps = 1 + rng.below(3);
+    for _ in 0..steps {
+        let fi = rng.below(collections.len() as u64) as usize;
+        let outlines = &collections[fi];
+        let size = pick_size(rng);
+        let n_axes = rng.below(4) as usize;
+        let coords = random_coords(rng, n_axes);
+        let (opts, _) = hint_options(rng);
+        match inst.as_mut() {
+            None => {
+                if let Ok(Ok(i)) = catch(|| HintingInstance::new(outlines, size, LocationRef::new(&coords), opts)) {
+                    inst = Some(i);
+                }
+            }
+            Some(i) => {
+                let _ = catch(|| i.reconfigure(outlines, size, LocationRef::new(&coords), opts));
+            }
+        }
+    }
+    inst
+}
+
+/// first differing field of two `verif_state` strings
+fn diff_hint(a: &str, b: &str) -> String {
+    let pa: Vec<&str> = a.split(' ').collect();
+    let pb: Vec<&str> = b.split(' ').collect();
+    for (i, (x, y)) in pa.iter().zip(pb.iter()).enumerate() {
+        if x != y {
+            let lo = i.saturating_sub(2);
+            return format!("token {i}: fresh ..{}.. vs ..{}..", pa[lo..(i + 3).min(pa.len())].join(" "), pb[lo..(i + 3).min(pb.len())].join(" "));
+        }
+    }
+    format!("lengths {} vs {}", pa.len(), pb.len())
+}
+
+fn run(cfg: &Config, s: &mut Session) {
+    let mut rng = Rng::new(cfg.seed);
+    part_to_path(cfg, s, &mut rng);
+    part_carve(cfg, s, &mut rng);
+    let mut rng = Rng::new(cfg.seed ^ 0xC12);
+    part_fonts(cfg, s, &mut rng);
+    let _ = Location::new(0);
+}
+
+fn main() {
+    fv_harness::main_with("C12", run)
+}
